@@ -158,6 +158,14 @@ func genMapFamilies(g genCfg, c ContainerKind, level int, full bool) []*MapScen 
 			add(&MapScen{Rel: RelSD, NKeys: 2, Init: []int{0, 1}, Table: TGrowArmed, Chain: 2, FillFirst: ff, Threads: [][]MIn{{on(opStore, 0)}, {on(b, 1)}}, ExpectGrow: true})
 		}
 	}
+	// F5c: keys whose in-bucket tag is all zero (top hash 0 / h2 0), alone in their bucket or next to others,
+	// across plain operations, a grow and a shrink
+	for _, b := range []MIn{opLoad, opStore, opDelete, opLoS} {
+		add(&MapScen{Rel: RelZeroDD, NKeys: 2, Init: []int{0, 1}, Table: TGrowArmed, Threads: [][]MIn{{on(opStore, 0)}, {on(b, 1)}}, ExpectGrow: true})
+		add(&MapScen{Rel: RelZeroDD, NKeys: 2, Init: []int{1, 1}, Table: TShrinkArmed, Threads: [][]MIn{{on(opDelete, 0)}, {on(b, 1)}}, ExpectShrink: true})
+		add(&MapScen{Rel: RelZeroSD, NKeys: 2, Init: []int{1, 1}, Table: TPlain, Threads: [][]MIn{{on(opDelete, 0), on(opStore, 0)}, {on(b, 1)}}})
+		add(&MapScen{Rel: RelZeroSD, NKeys: 2, Init: []int{0, 1}, Table: TPlain, Threads: [][]MIn{{on(opStore, 0)}, {on(b, 0)}}})
+	}
 	// F6: shrink in flight. T0 removes k0 leaving its bucket empty below the shrink threshold.
 	for _, del := range removeOps {
 		if level == 0 && del.Op != MDelete {
